@@ -146,7 +146,7 @@ def run_property(mod, tier='quick', seed=0):
         notes.append('obligation list could not be built: %s: %s' % (type(e).__name__, e))
     # whole-pool budget: a quick check must stay well below a quarter of an hour even on a slow / loaded machine (what does not finish is 'lost', i.e.
     # undecided in this run and listed in the evidence - never a violation); override with VERIF_POOL_BUDGET
-    budget = float(os.environ.get('VERIF_POOL_BUDGET', getattr(mod, 'POOL_BUDGET', {}).get(tier, 420 if tier == 'quick' else 7200)))
+    budget = float(os.environ.get('VERIF_POOL_BUDGET', getattr(mod, 'POOL_BUDGET', {}).get(tier, 600 if tier == 'quick' else 7200)))
     results = run_pool(obs, budget_s=budget) if obs else []
     discharged = [r for r in results if r['verdict'] == 'discharged']
     refuted = [r for r in results if r['verdict'] == 'refuted']
@@ -282,6 +282,12 @@ def run_property(mod, tier='quick', seed=0):
                 'bounded: ' + str((bounded or {}).get('rule', 'none')),
         'notes': notes,
     }
+    if level == 'proof' and not (n_ob > 0 and len(discharged) == n_ob):
+        # THIS run did not discharge every obligation (time limit on a loaded machine, a shape outside the subset, a refutation): it is not a proof-level record.
+        # The evidence says so instead of carrying the level claimed for the complete run; what was and was not discharged is listed in coverage.
+        cov['level_claimed_for_a_complete_run'] = 'proof'
+        cov['explanation'] = 'INCOMPLETE RUN (%d of %d obligations discharged): recorded at level "other". ' % (len(discharged), n_ob) + str(cov.get('explanation', ''))
+        level = 'other'
     ev = {
         'property_id': prop, 'tier': tier, 'seed': int(seed), 'level': level, 'coverage': cov,
         'assumptions': list(getattr(mod, 'ASSUMPTIONS', [])) + ['transparent helper unfolded at call sites: ' + t for t in transparent],
